@@ -129,6 +129,9 @@ func vfC13Gen(rt *rapid.T) vfC13Case {
 			op.Thr = vfGenThreshold(rt, kind, q, stored)
 			op.IDs = vfGenIDSubset(rt, all)
 			op.NP = rapid.IntRange(-2, c.NList+2).Draw(rt, "nprobes")
+			if rapid.IntRange(0, 4).Draw(rt, "thr_of_on") == 0 {
+				op.Thr, op.ThrOf = 0, rapid.IntRange(1, 8).Draw(rt, "thr_of_rank")
+			}
 			return op
 		}
 	})
@@ -310,6 +313,30 @@ func vfC13Run(c vfC13Case, ctx *vfCtx) *vfViolation {
 				}
 				r, err := s.Execute()
 				return vfHitsOf(r), err
+			}
+			if op.ThrOf > 0 {
+				sAll := idx.NewSearch().WithQuery(vfCloneF32(op.Vec)).WithK(0).WithNProbes(op.NP)
+				if len(op.IDs) > 0 {
+					sAll = sAll.WithDocumentIDs(op.IDs...)
+				}
+				rAll, err := sAll.Execute()
+				if err != nil {
+					return vfFail("op %d: search: %v", i, err)
+				}
+				un := vfHitsOf(rAll)
+				op.Thr = 0
+				if len(un) > 0 {
+					op.Thr = un[(op.ThrOf-1)%len(un)].Score
+					got, err := exec(op.NP)
+					if err != nil {
+						return vfFail("op %d: search: %v", i, err)
+					}
+					if v := vfThresholdRelation(un, got, op.Thr, op.K); v != nil {
+						v.Msg = fmt.Sprintf("op %d (nprobes=%d): %s", i, op.NP, v.Msg)
+						return v
+					}
+					ctx.Class("threshold_equal_to_a_reported_score")
+				}
 			}
 			hits, err := exec(op.NP)
 			if err != nil {
